@@ -10,7 +10,7 @@
    The statements hold for every logarithm / power function [lg], [ex] plugged into the model. *)
 From Coq Require Import ZArith List Bool Lia.
 Import ListNotations.
-From Osmo Require Import Base.DecModel Gen.C10_consts C10.Model C10.Spec C10.ProofsList C10.ProofsChain C10.ProofsTwap.
+From Osmo Require Import Base.DecModel Gen.C10_consts C10.Model C10.LogExp C10.Spec C10.ProofsList C10.ProofsChain C10.ProofsTwap C10.ProofsLog C10.ProofsFull.
 Open Scope Z_scope.
 
 (* arithmetic TWAP = the code's rounding (truncating division) of  sum p_i * dt_i / (end - start), for every history,
@@ -71,6 +71,68 @@ Theorem C10_reachable_sorted : forall lg t0 h0 w0 w1 evs p G,
   history lg t0 h0 w0 w1 evs p G -> tsorted (p_hist p).
 Proof. intros lg t0 h0 w0 w1 evs p G H. destruct (history_inv _ _ _ _ _ _ _ _ H) as ((_ & _ & Hs & _) & _). exact Hs. Qed.
 Print Assumptions C10_reachable_sorted.
+
+(* the two quote directions of the geometric TWAP come from one and the same Exp2 value E: one is the code's rounding of E,
+   the other of the rounded reciprocal 10^72/E (bd_quo), which satisfies |E * recip - 10^72| <= E/2 + E/10^36 *)
+Theorem C10_geom_reciprocal : forall lg ex t0 h0 w0 w1 evs p G now start stop f0 v0 f1 v1,
+  history lg t0 h0 w0 w1 evs p G -> r_time (p_recent p) <= now ->
+  t0 <= start -> max_keep t0 evs <= start -> ms start < ms stop ->
+  twap_between lg ex now p true true start stop = QVal f0 v0 ->
+  twap_between lg ex now p false true start stop = QVal f1 v1 ->
+  let diff := integral (fun tau => glogv lg (price_at (spec_events t0 w0 w1 evs) true 0 tau)) (ms start) (ms stop) in
+  let m := Z.quot diff (ms stop - ms start) in
+  (diff = 0 /\ v0 = 0 /\ v1 = 0) \/
+  (diff <> 0 /\ exists E, ex (bd_from_dec (Z.abs m)) = Some E /\
+     sigfig_round (bd_to_dec (if m <? 0 then bd_quo P36 E else E)) = Some v0 /\
+     sigfig_round (bd_to_dec (if m <? 0 then E else bd_quo P36 E)) = Some v1).
+Proof. exact geom_reciprocal. Qed.
+Print Assumptions C10_geom_reciprocal.
+
+Theorem C10_reciprocal_rounding : forall E, 0 < E ->
+  Z.abs (bd_quo P36 E * E * P36 - P36 * P72) * 2 <= E * P36 + 2 * E.
+Proof. exact bd_quo_recip. Qed.
+Print Assumptions C10_reciprocal_rounding.
+
+(* the evaluation shortcuts used by the correspondence check compute the faithful LogBase2 *)
+Theorem C10_log_table_faithful : forall ps p, lg_cached (build_tab ps) p = twap_log p.
+Proof. exact lg_cached_correct. Qed.
+Print Assumptions C10_log_table_faithful.
+
+(* ---- the full statement, and where the faithful model refutes it ----
+   [C10_geom_full] (C10/ProofsFull.v): every answered geometric query inside the window returns [geom_answer] - the code's
+   rounding of Exp2 |diff/n| or of its reciprocal - with no side condition; [C10_answers_full]: every query over
+   start < end inside the window is answered. *)
+(* C10 at full strength = the theorems above (arithmetic mean, min/max, error flag, pruning, reciprocity) together with
+   [C10_geom_full], [C10_answers_full] and the real-analysis reading of geom_answer (|geom / 2^(mean log2 p) - 1| <= eps,
+   between min and max up to eps).  Proved: everything except the three items below.
+   - C10_geom_full is FALSE of the faithful model (finding F7): proved under the side condition diff <> 0
+     (C10_geom_conditional), refuted at price == 1 (C10_geom_full_refuted).
+   - C10_answers_full is FALSE of the faithful model (finding C10-SUBMS): an interval inside one millisecond panics
+     (C10_answers_full_refuted); for ms start < ms stop the remaining failure causes are the 2^256 range assertions of
+     Dec arithmetic and Exp2's exponent bound 2^9, not excluded here (partial).
+   - the real-analysis bounds need error bounds for LogBase2 and Exp2 (property C13): not proved here (partial). *)
+Definition C10_full : Prop := C10_geom_full twap_log exp2 /\ C10_answers_full twap_log exp2.
+
+Theorem C10_geom_conditional : forall lg ex t0 h0 w0 w1 evs p G now q0 start stop f v,
+  history lg t0 h0 w0 w1 evs p G -> r_time (p_recent p) <= now ->
+  t0 <= start -> max_keep t0 evs <= start -> ms start < ms stop ->
+  twap_between lg ex now p q0 true start stop = QVal f v ->
+  integral (fun tau => glogv lg (price_at (spec_events t0 w0 w1 evs) true 0 tau)) (ms start) (ms stop) <> 0 ->
+  geom_answer ex (integral (fun tau => glogv lg (price_at (spec_events t0 w0 w1 evs) true 0 tau)) (ms start) (ms stop))
+              (ms stop - ms start) q0 v.
+Proof. exact geom_conditional. Qed.
+Print Assumptions C10_geom_conditional.
+
+(* F7 witness (replayed on the real chain by props/c10.py f7_witness): a pool whose spot price is exactly 1, blocks at 0, 5
+   and 10 ms; the geometric TWAP over [1 ms, 4 ms] is 0, whereas Exp2 0 = 1 rounds to 1.000000000000000000 *)
+Theorem C10_geom_full_refuted : ~ C10_geom_full twap_log exp2.
+Proof. exact geom_full_refuted. Qed.
+Print Assumptions C10_geom_full_refuted.
+
+(* C10-SUBMS witness: the same pool; the interval [1 ns, 2 ns] lies inside one millisecond and the arithmetic query panics *)
+Theorem C10_answers_full_refuted : ~ C10_answers_full twap_log exp2.
+Proof. exact answers_full_refuted. Qed.
+Print Assumptions C10_answers_full_refuted.
 
 (* non-vacuity: a pool at price 2 / 0.5, moved to 3 / 0.333 after 10 s and to 1.5 / 0.666 after 15 s, pruned with keep
    time 12 s; the interval [13 s, 21 s] is answered with the mean (2*3 s... ) computed below *)
